@@ -94,6 +94,12 @@ func (s *Store) Load(key uint) ([]byte, error) {
 
 // Save implements mqtt.Persistence.
 func (s *Store) Save(key uint, value net.Buffers) error {
+	s.w.mu.Lock()
+	defer s.w.mu.Unlock()
+	before := s.w.Broker.Snapshot()
+	failed := s.gate('S')
+	// The buffers are read when the (possibly slow) operation gets to them,
+	// not on entry: they are the caller's for the whole duration of the call.
 	n := 0
 	for _, b := range value {
 		n += len(b)
@@ -102,10 +108,7 @@ func (s *Store) Save(key uint, value net.Buffers) error {
 	for _, b := range value {
 		v = append(v, b...)
 	}
-	s.w.mu.Lock()
-	defer s.w.mu.Unlock()
-	before := s.w.Broker.Snapshot()
-	if s.gate('S') {
+	if failed {
 		s.record(StoreOp{Kind: 'S', Key: key, Val: v, Err: ErrStore, Before: before, After: s.w.Broker.Snapshot()})
 		return ErrStore
 	}
